@@ -48,12 +48,12 @@ Qed.
 (* the list holds the distinct coupons [ds] in arrival order, then empty cells *)
 Definition ListInv (l : hlist) (ds : list N) : Prop :=
   hl_coupons l = ds ++ repeat 0 (8 - length ds) /\ hl_len l = N.of_nat (length ds) /\
-  NoDup ds /\ ~ In 0 ds /\ (length ds <= 8)%nat.
+  NoDup ds /\ ~ In 0 ds /\ (length ds <= 8)%nat /\ hl_lg l = 3.
 
 Lemma list_new_inv : ListInv (list_new LG_INIT_LIST_SIZE) [].
 Proof.
   unfold ListInv. cbn [app length]. split; [reflexivity|]. split; [reflexivity|].
-  split; [constructor|]. split; [tauto|lia].
+  split; [constructor|]. split; [tauto|]. split; [lia|reflexivity].
 Qed.
 
 Lemma list_iter_inv : forall l ds, ListInv l ds -> list_iter l = ds.
@@ -61,23 +61,23 @@ Proof. intros l ds (Hc & _ & _ & H0 & _). unfold list_iter. rewrite Hc. now appl
 
 Lemma list_full_inv : forall l ds, ListInv l ds -> list_is_full l = (length ds =? 8)%nat.
 Proof.
-  intros l ds (Hc & Hl & _ & _ & Hle). unfold list_is_full. rewrite Hc, Hl, app_length, repeat_length.
+  intros l ds (Hc & Hl & _ & _ & Hle & _). unfold list_is_full. rewrite Hc, Hl, app_length, repeat_length.
   destruct (Nat.eqb_spec (length ds) 8); lia.
 Qed.
 
 Lemma list_update_old : forall l ds c, ListInv l ds -> In c ds -> list_update l c = l.
 Proof.
-  intros l ds c (Hc & Hl & Hnd & H0 & Hle) Hin. unfold list_update. rewrite Hc.
+  intros l ds c (Hc & Hl & Hnd & H0 & Hle & _) Hin. unfold list_update. rewrite Hc.
   rewrite list_scan_in by assumption. rewrite <- Hc. now destruct l.
 Qed.
 
 Lemma list_update_new : forall l ds c, ListInv l ds -> ~ In c ds -> c <> 0 -> (length ds < 8)%nat ->
   ListInv (list_update l c) (ds ++ [c]).
 Proof.
-  intros l ds c (Hc & Hl & Hnd & H0 & Hle) Hin Hc0 Hlt. unfold list_update. rewrite Hc.
+  intros l ds c (Hc & Hl & Hnd & H0 & Hle & Hlg3) Hin Hc0 Hlt. unfold list_update. rewrite Hc.
   replace (8 - length ds)%nat with (S (7 - length ds)) by lia.
-  rewrite list_scan_new by assumption. unfold ListInv. cbn [hl_coupons hl_len].
-  rewrite app_length. cbn [length]. split; [|split; [|split; [|split]]].
+  rewrite list_scan_new by assumption. unfold ListInv. cbn [hl_coupons hl_len hl_lg].
+  rewrite app_length. cbn [length]. split; [|split; [|split; [|split; [|split; [|exact Hlg3]]]]].
   - rewrite <- app_assoc. cbn [app]. do 3 f_equal. lia.
   - lia.
   - apply NoDup_app_one; assumption.
